@@ -299,7 +299,7 @@ func decide(cfg solveCfg, v *Verdict) {
 			a, t, el = runSolver("z3-new", v.File, cfg.quickT)
 			sname = "z3-new"
 		} else {
-			a, sname, t, el = raceSolvers([]string{"z3-new", "z3-new/noext"}, v.File, cfg.quickT)
+			a, sname, t, el = raceSolvers([]string{"z3-new", "z3-new/noext", "cvc5"}, v.File, cfg.quickT)
 		}
 		record(a, sname, el, t)
 		if a != "unsat" && a != "sat" && !expectSat {
